@@ -235,6 +235,37 @@ def contracts():
         }""")],
         rewrites=[("T-ITER", r"(?P<v>\w+)\.extend\((?P<w>\w+)\.iter\(\)\.map\(\|v\| v\.to_string\(\)\)\)", r"crate::titer2::extend_from_strs(&mut \g<v>, \g<w>)", None),
                   ("T-ITER", r"(?P<v>\w+)\.extend\((?P<w>\w+)\.iter\(\)\.map\(\|v\| v\.to_owned\(\)\)\)", r"crate::titer2::extend_from_strings(&mut \g<v>, \g<w>)", None)])
+    # the endpoint object of a certificate: its configured endpoint, built with the root certificates of the command line
+    c["Certificate::get_endpoint"] = FnSpec(ret="r", sig="""
+    ensures
+        r matches Ok(e) ==> exists|i: int| first_endpoint(*cnf, self.endpoint@, i) && e.name@ == cnf.endpoint@[i].name@ && e.url@ == cnf.endpoint@[i].url@
+            && strs(e.root_certificates@) == strs_ref(root_certs@) + opt_strs(cnf.endpoint@[i].root_certificates)
+                + (match cnf.global { Some(g) => opt_strs(g.root_certificates), None => Seq::<Seq<char>>::empty() }), //@C18.the_endpoint_of_a_certificate_gets_the_command_line_roots,C14.endpoint_reference_resolves_or_error
+        r is Err ==> true,
+""")
+    # the configuration the daemon starts with: what read_cnf gives for the file, with the global environment dispatched
+    c["from_file"] = FnSpec(ret="r", ghost=True, sig="""
+    requires old(w).opened == Set::<Seq<char>>::empty(), cnf_universe().finite(),
+    ensures
+        // every variable of the [global] environment is in the environment of every certificate (its own value, if it sets one)
+        r matches Ok(c) ==> forall|i: int, k: Seq<char>| 0 <= i < c.certificate@.len() && global_env_of(c).contains_key(k)
+            ==> #[trigger] crate::venv::envmap(c.certificate@[i].env).contains_key(k), //@C10.the_global_environment_reaches_every_certificate
+""", rewrites=[("T-MAP", r"BTreeSet::new\(\)", "crate::config::empty_path_set()", 1)],
+        at=[("before_stmt", "let mut config = read_cnf(", 1, """
+    proof {
+        let e = loaded_files@.map_values(|p: PathBuf| p@);
+        assert(e.len() == 0);
+        assert(paths(loaded_files@) =~= Set::<Seq<char>>::empty()) by {
+            assert forall|x: Seq<char>| !e.to_set().contains(x) by { if e.to_set().contains(x) { let i = choose|i: int| 0 <= i < e.len() && e[i] == x; } }
+        }
+    }"""),
+            ("before_tail", None, 1, """
+    proof {
+        assert forall|i: int, k: Seq<char>| 0 <= i < config.certificate@.len() && global_env_of(config).contains_key(k)
+            implies #[trigger] crate::venv::envmap(config.certificate@[i].env).contains_key(k) by { //@C10.the_global_environment_reaches_every_certificate
+            let g = global_env_of(config);
+        }
+    }""")])
     # ---- include handling: every file read once, recursion terminates, lists appended, global options: later file wins
     c["read_cnf"] = FnSpec(ret="r", ghost=True, sig="""
     requires old(w).opened == paths(old(loaded_files)@), paths(old(loaded_files)@).subset_of(cnf_universe()), cnf_universe().finite(),
@@ -354,7 +385,7 @@ pub fn parse_duration(input: &str) -> (r: Result<Duration, Error>)
         if "::" not in key:
             u.verify(C, key, "config", props=["C14", "C19"] + (["C13", "C18", "C10", "C06"] if key == "read_cnf" else []), fns={key: fs})
             continue
-        p = ["C14", "C06"] if fn in ("get_renew_delay", "get_random_early_renew") else ["C13"] if fn in props["C13"] else ["C14", "C10", "C19"] if "hook" in fn else ["C18", "C14"] if fn == "to_generic" else ["C14"]
+        p = ["C14", "C06"] if fn in ("get_renew_delay", "get_random_early_renew") else ["C13"] if fn in props["C13"] else ["C14", "C10", "C19"] if "hook" in fn else ["C18", "C14"] if fn in ("to_generic", "get_endpoint") else ["C18", "C14"] if fn == "to_generic" else ["C14"]
         u.verify(C, key, "config", props=p, fns={fn: fs})
     return u
 
@@ -374,6 +405,11 @@ pub uninterp spec fn cnf_universe() -> Set<Seq<char>>;   // assumption: finitely
 // the identity of the file a path designates: its canonical path (symlinks, `..` and relative parts resolved)
 pub uninterp spec fn canon(p: Seq<char>) -> Seq<char>;
 impl Clone for PathBuf { #[verifier::external_body] fn clone(&self) -> (r: Self) ensures r == *self { unimplemented!() } }
+impl<'a> From<&'a str> for PathBuf { #[verifier::external_body] fn from(s: &'a str) -> (r: PathBuf) ensures r@ == s@ { unimplemented!() } }
+impl<'a> vstd::std_specs::convert::FromSpecImpl<&'a str> for PathBuf {
+    open spec fn obeys_from_spec() -> bool { false }
+    open spec fn from_spec(s: &'a str) -> Self { arbitrary() }
+}
 impl PathBuf {
     pub open spec fn view(&self) -> Seq<char> { self.s@ }
     #[verifier::external_body]
@@ -438,6 +474,11 @@ impl BTreeSet<PathBuf> {
     #[verifier::external_body]
     pub fn insert(&mut self, p: PathBuf) -> (r: bool) ensures paths(final(self)@) == paths(old(self)@).insert(p@) { unimplemented!() }
 }
+#[verifier::external_body]
+pub fn empty_path_set() -> (r: BTreeSet<PathBuf>) ensures r@.len() == 0 { unimplemented!() }
+// init_directories: creates the account and certificate directories when they do not exist (no effect on the configuration)
+#[verifier::external_body]
+fn init_directories(config: &Config) -> (r: Result<(), Error>) { unimplemented!() }
 pub struct File { pub path: Ghost<Seq<char>> }
 impl File {
     // C14: a configuration file is opened only if it has not been opened before
